@@ -5,6 +5,7 @@ CONSTANTS
   MaxExtCli = 2
   MaxKe = 1
   MaxCases = 1
+  ScDev = 2
   Wide = FALSE
   ExtLenZeroLoops = TRUE
   NonceLenUnchecked = TRUE
@@ -12,5 +13,11 @@ CONSTANTS
   PacketOverflowUnchecked = TRUE
   ShortUniqueIdEchoed = TRUE
   CsptpShortDatagram = TRUE
+  ScionReverseUnchecked = TRUE
+  ScionAddrLenUnchecked = TRUE
+  ScionAuthOptUnchecked = TRUE
+  ScionMacErrPanics = TRUE
+  ScionTsOptUnchecked = TRUE
+  ScionTsOptTrusted = TRUE
 INVARIANTS TypeOK OutcomeConsistent
 PROPERTIES SentinelServed
